@@ -45,6 +45,40 @@ def abi_texts(tier, rnd):
     return out
 
 
+def router_texts(tier, rnd):
+    """Router approval / clear programs (C08 configurations, C09 signature catalogue) and inner method calls (C14)"""
+    import c08
+    import c09
+    import c14
+    import callgen
+    import replay
+    out = []
+    configs, _ = c08.gen_configs()
+    live = [c for c in configs if any(v != "NEVER" for v in c.values())]
+    for j in range(12 if tier == "quick" else 120):
+        cfg = {"methods": [rnd.choice(live) for _ in range(rnd.choice((0, 1, 2, 3)))], "bare": rnd.choice(configs), "clear": rnd.randrange(2),
+               "style": rnd.choice(("handler", "decorator"))}
+        try:
+            router, _ = c08.build_router(cfg)
+            for v in (6, 8):
+                ap, cl, _ = router.compile_program(version=v)
+                out.append(("router#%d approval" % j, ap, v, {"m1": [(0, 0)], "m2": [(0, 0)], "m3": [(0, 0)]}))
+                out.append(("router#%d clear" % j, cl, v, None))
+        except replay.PYTEAL_ERRORS:
+            pass
+    cat = c09.catalogue(tier, rnd)
+    for ps in (cat if tier == "thorough" else rnd.sample(cat, min(len(cat), 30))):
+        for void in (True, False):
+            try:
+                for v in (6, 8):
+                    ap, _, _ = c09.make_router(ps, void).compile_program(version=v)
+                    out.append(("routed echo(%s)%s" % (",".join(c09.abitypes_sig(p) for p in ps), "void" if void else "string"), ap, v,
+                                {"echo": [(len(ps), 0 if void else 1)]}))
+            except replay.PYTEAL_ERRORS:
+                pass
+    return out
+
+
 def illtyped_attempts():
     """programs that violate a typing rule: PyTeal should refuse them; if one compiles, its text is judged like any other"""
     import replay
@@ -129,6 +163,17 @@ def main():
         t["_text"], t["_st"] = teal, {"v": v}
         entries.append({"texts": [t]})
         descr.append({"big": what})
+    nrouter = 0
+    for what, teal, v, registry in router_texts(tier, rnd):
+        if teal in seen:
+            continue
+        seen.add(teal)
+        t = static.text_record(teal, v, "app", tag="v%d" % v, registry=registry)
+        t["_text"], t["_st"] = teal, {"v": v}
+        entries.append({"texts": [t]})
+        descr.append({"big": what})
+        nrouter += 1
+    chk.notes["router_texts"] = nrouter
     import replay as _rp
     refused = accepted = 0
     for what, build in illtyped_attempts():
